@@ -5,6 +5,7 @@ import (
 	"go/token"
 	"go/types"
 	"sort"
+	"strings"
 
 	"golang.org/x/tools/go/ssa"
 
@@ -182,6 +183,47 @@ func runC18(c *Ctx) {
 		sort.Strings(bad)
 		bad = uniq(bad)
 		c.verdict(len(bad) == 0, "module | local containers shared with spawned goroutines are not written afterwards", "-", fmt.Sprintf("%d goroutine closure(s) use a captured local map/slice; none is written by its spawner after the go statement", n), join(bad), sites...)
+	})
+	c.rule("C18.R4", "concurrent readers do not share scratch memory: the header stores' read paths run under the shared (read) lock, so several may execute at once; every buffer they let the file fill (File.ReadAt / io.ReaderAt destinations in package headerfs) is a slice made in the reading function itself, never memory reachable from the store (a per-store scratch buffer would be written by all concurrent readers)", func() {
+		var bad, sites []string
+		n := 0
+		for _, f := range c.P.Funcs {
+			if pkgOf(f) == nil || !strings.HasSuffix(pkgOf(f).Path(), "/headerfs") {
+				continue
+			}
+			ir.Instrs(f, func(in ssa.Instruction) {
+				cc := ir.CallOf(in)
+				if cc == nil {
+					return
+				}
+				cal := ir.Resolve(cc)
+				if cal.Func == nil || cal.Func.Name() != "ReadAt" {
+					return
+				}
+				a := argsOf(in)
+				if len(a) != 2 {
+					return
+				}
+				n++
+				sites = append(sites, c.nm(f)+"@"+c.at(in))
+				local := ir.DerivesFrom(a[0], func(v ssa.Value) bool {
+					ms, ok := v.(*ssa.MakeSlice)
+					return ok && ms.Parent() == f
+				})
+				shared := ir.DerivesFrom(a[0], func(v ssa.Value) bool {
+					_, isFA := v.(*ssa.FieldAddr)
+					_, isG := v.(*ssa.Global)
+					_, isP := v.(*ssa.Parameter)
+					_, isFV := v.(*ssa.FreeVar)
+					return isFA || isG || isP || isFV
+				})
+				if !local || shared {
+					bad = append(bad, c.nm(f)+" at "+c.at(in)+" reads into memory that is not local to the call")
+				}
+			})
+		}
+		sort.Strings(bad)
+		c.verdict(len(bad) == 0 && n >= 2, "package headerfs | file reads fill buffers local to the reading call", "-", fmt.Sprintf("%d ReadAt site(s), all into make([]byte, ..) of the same function", n), join(bad)+fmt.Sprintf(" (%d ReadAt sites)", n), sites...)
 	})
 }
 
